@@ -3983,3 +3983,56 @@ func checkClaimCursorReads(p *Program, r *Report, rule string, a *verifyAnchors)
 	}
 	r.Floor(rule, "advances of hash cursors in the core", n, 3)
 }
+
+// ---------------------------------------------------------------------------
+// LIMIT-NOT-ALLOCATED (R15i). The memory limit is a bound, not a size: the
+// property ranges over limits "from 1 to unbounded". Allocating by it
+// (make(..., limit)) makes the largest int - the natural way to say "no
+// limit" - die in makeslice, and any large limit allocate what will never be
+// used. No allocation under the schedule generator may be sized by a value
+// that flows from its integer parameter.
+
+func checkLimitNotAllocated(p *Program, r *Report, rule string) {
+	e := p.Func("(*CachingScheduleTracker).GenerateCachingSchedule")
+	if e == nil {
+		r.MissingAnchor(rule, "(*CachingScheduleTracker).GenerateCachingSchedule", "schedule generator not found")
+		return
+	}
+	var limit ssa.Value
+	for _, par := range e.Params[1:] {
+		if isIntLike(par.Type()) {
+			limit = par
+		}
+	}
+	key := "(*CachingScheduleTracker).GenerateCachingSchedule/limit-sized-allocation"
+	if limit == nil {
+		r.Undecided(rule, key, p.Pos(e.Pos()), "cannot identify the memory-limit parameter")
+		return
+	}
+	fromLimit := func(v ssa.Value) bool {
+		return v != nil && flowsFrom(v, func(x ssa.Value) bool { return x == limit }, 0, map[ssa.Value]bool{})
+	}
+	nAlloc := 0
+	var bad ssa.Instruction
+	for _, b := range e.Blocks {
+		for _, in := range b.Instrs {
+			switch x := in.(type) {
+			case *ssa.MakeSlice:
+				nAlloc++
+				if (fromLimit(x.Len) || fromLimit(x.Cap)) && bad == nil {
+					bad = in
+				}
+			case *ssa.MakeMap:
+				nAlloc++
+				if fromLimit(x.Reserve) && bad == nil {
+					bad = in
+				}
+			}
+		}
+	}
+	if bad != nil {
+		r.Violate(rule, key, posOf(p, bad), "an allocation is sized by the memory limit: the limit is a bound that may be arbitrarily large (the largest int for 'no limit' panics in makeslice), not the number of elements that will be held", "in GenerateCachingSchedule")
+	} else {
+		r.Discharge(rule, key, p.Pos(e.Pos()), fmt.Sprintf("none of the %d allocations of the generator is sized by the memory limit", nAlloc), true)
+	}
+}
